@@ -718,14 +718,17 @@ impl Report {
                 let outs: Vec<(usize, ShardStats, Option<(usize, Fail)>)> =
                     std::thread::scope(|scope| {
                         let mut hs = vec![];
-                        for (t, part) in chunk.chunks(CHUNK).enumerate() {
+                        // strided split: thread t takes the cases t, t + threads, ... (a handful
+                        // of heavy deterministic cases is spread over the threads as well)
+                        for t in 0..threads.min(chunk.len()) {
+                            let part = &chunk;
                             let test = &test;
                             let known = &self.ctx.known;
                             let id = &self.ctx.id;
                             hs.push(scope.spawn(move || {
                                 let mut st = ShardStats::new();
                                 let mut failure = None;
-                                for (i, c) in part.iter().enumerate() {
+                                for (i, c) in part.iter().enumerate().skip(t).step_by(threads) {
                                     st.evaluations += 1;
                                     match run_case(sub, test, c) {
                                         Ok(info) => {
@@ -750,7 +753,7 @@ impl Report {
                                                     continue;
                                                 }
                                             }
-                                            failure = Some((t * CHUNK + i, f));
+                                            failure = Some((i, f));
                                             break;
                                         }
                                     }
